@@ -32,7 +32,7 @@ def hostile_refname(rng):
 
 
 def one_case(arg):
-    seed, idx, sz, scratch = arg
+    seed, idx, sz, scratch = arg[:4]
     rng = random.Random("C19|%d|%d" % (seed, idx))
     d = os.path.join(scratch, "w%d" % idx)
     os.makedirs(d)
@@ -201,6 +201,33 @@ def one_case(arg):
             else:
                 # the number of distinct footnotes equals the number of distinct cited objects of the model-independent count
                 pass
+        if idx % 2 == 0:
+            shimdir = arg[4] if len(arg) > 4 else None
+            for k in range(3):
+                sigf = rng.choice(["config --list", "config --list", "rev-parse --git-path", "for-each-ref", "rev-list", "cat-file --batch",
+                                   "config --get sizer.names", "config --get sizer.threshold"])
+                rule = {"sig": sigf, "ord": rng.choice([0, 0, 1]), "mode": "fault", "term": rng.choice(["exit:128", "exit:2", "sig:KILL"]),
+                        "after_bytes": rng.choice([0, 0, 50, 1 << 40]), "before_exec": rng.random() < 0.3}
+                fmt = rng.choice([["--json"], ["--json", "--json-version=2"], ["-v"]])
+                plan = R.make_plan(os.path.join(d, "fp%d" % k), [rule])
+                rf = R.sizer(sz, gitdir, fmt + ["--no-progress"] + sel + roots, shimdir=shimdir, plan=plan, tmpdir=d, timeout=30)
+                out["evals"] += 1
+                if rf.timed_out:
+                    continue
+                if rf.rc != 0:
+                    if rf.out.strip():
+                        out["viol"].append(("C19/fault/stdout-not-empty-on-failure", dict(ctx, rule=rule, out=rf.out[:160])))
+                    continue
+                if "--json" in fmt:
+                    jf, pf = P.parse_json(rf.out)
+                    pf = [x for x in pf if not x.startswith("duplicate key")]
+                    if jf is None or pf:
+                        out["viol"].append(("C19/fault/exit-0-with-malformed-json", dict(ctx, rule=rule, problems=pf, out=rf.out[:160])))
+                else:
+                    tf = P.parse_table(rf.out, lenient=True)
+                    if tf.errors:
+                        out["viol"].append(("C19/fault/exit-0-with-malformed-table", dict(ctx, rule=rule, errors=tf.errors[:2], out=rf.out[:160])))
+                out["fault_runs"] = out.get("fault_runs", 0) + 1
         out["sample"] = {"profile": prof, "refs": [x.decode("utf-8", "replace") for x in sorted(ok_refs)][:3], "roots": roots,
                          "refgroup_symbols": syms, "citations_in_table": out["cites"]}
     finally:
@@ -224,7 +251,8 @@ def run(chk, b, tier):
     n = 120 if tier == "quick" else 3000
     sz = b.sizer()
     scratch = b.scratchdir()
-    res = R.pmap(one_case, [(R.SEED, i, sz, scratch) for i in range(n)], chunksize=2, chk=chk)
+    shimdir = b.shimdir()
+    res = R.pmap(one_case, [(R.SEED, i, sz, scratch, shimdir) for i in range(n)], chunksize=2, chk=chk)
     profs = {}
     for i, r in enumerate(res):
         chk.count(r["evals"])
